@@ -3,9 +3,11 @@
     Proofs/SendRestrProofs.v.  [allowed]/[send_restriction] is the transcription of the Go code
     (Marker/SendRestr.v); [doc_send_allowed] is the transcription of the flowcharts of
     x/marker/spec/12_transfers.md (Marker/SendRestrSpec.v). *)
-From Coq Require Import ZArith PArith List Bool Ascii.
+From Coq Require Import ZArith PArith List Bool Ascii Permutation.
 Import ListNotations.
-From PV Require Import Marker.SendRestr Marker.SendRestrSpec Proofs.SendRestrProofs.
+From PV Require Import Marker.SendRestr Marker.SendRestrSpec Marker.SendCompose
+  Proofs.SendRestrProofs Proofs.SendRestrPerm Proofs.SendComposeProofs.
+From PV Require Corr.C04 Proofs.C04CheckerProofs.
 
 (** "Permitted exactly when the documented rules permit it": for every configuration, sender,
     receiver and valid sdk.Coins (positive amounts), the code decides exactly as the documented
@@ -91,6 +93,253 @@ Theorem C04_per_denom_independent : forall c from to a1 a2,
 Proof. exact per_denom_independent. Qed.
 Print Assumptions C04_per_denom_independent.
 
+(** "Each denom is judged on its own", full strength: the verdict on a valid sdk.Coins (positive
+    amounts) is the conjunction of the verdicts of its coins taken one at a time ... *)
+Theorem C04_verdict_is_conjunction_of_coin_verdicts : forall c from to amt,
+  coins_valid amt -> amt <> [] ->
+  allowed c from to amt = forallb (fun p => allowed c from to [p]) amt.
+Proof. exact allowed_per_coin. Qed.
+Print Assumptions C04_verdict_is_conjunction_of_coin_verdicts.
+
+(** ... it does not depend on the order in which the coins are listed (Coins.Find, the denom loop and
+    the fee-collector loop cannot make one coin's verdict depend on its position) ... *)
+Theorem C04_verdict_order_independent : forall c from to a1 a2,
+  coins_valid a1 -> Permutation a1 a2 -> allowed c from to a1 = allowed c from to a2.
+Proof. exact allowed_perm. Qed.
+Print Assumptions C04_verdict_order_independent.
+
+(** ... nor on the (positive) amounts. *)
+Theorem C04_coin_verdict_ignores_amount : forall c from to d x y,
+  (0 < x)%Z -> (0 < y)%Z -> allowed c from to [(d, x)] = allowed c from to [(d, y)].
+Proof. exact allowed_amount_irrelevant. Qed.
+Print Assumptions C04_coin_verdict_ignores_amount.
+
+(** When marker accounts sit at the address of their denom (types.MarkerAddress), the sender block's
+    "own denom leaves only an active marker" test is subsumed by the denom loop: the verdict is the
+    same without it (a change weakening only that test cannot be observed). *)
+Theorem C04_own_denom_check_subsumed : forall c from to amt,
+  (forall a m, lookup_acct a (cfg_accounts c) = Some (AcctMarker m) -> a = AMarker (m_denom m)) ->
+  cfg_ctx_bypass c || addr_eqb from (cfg_marker_module c) || addr_eqb from (cfg_ibc_module c) = false ->
+  allowed c from to amt =
+  sender_marker_block_no_own c from (cfg_agents c) &&
+  receiver_marker_block c from (cfg_agents c) (get_marker_ign c to) &&
+  forallb (fun p => validate_send_denom c from to (cfg_agents c) (fst p) (get_marker_ign c to)) amt.
+Proof. exact own_denom_check_subsumed. Qed.
+Print Assumptions C04_own_denom_check_subsumed.
+
+(** * The three restrictions of the application together *)
+
+(** The restriction the application's bank applies — the registered restrictions composed in the
+    effective order of the reviewed wiring table of app/app.go (Base/WiringDoc.v, proved equal to the
+    table regenerated from the source on every run) — is: marker, then sanction, then quarantine,
+    each seeing the destination the previous one returned. *)
+Theorem C04_app_restriction_is_marker_sanction_quarantine : forall ac from to amt,
+  app_restriction ac from to amt =
+  match send_restriction (ac_marker ac) from to amt with
+  | None => None
+  | Some to1 =>
+      match sanction_restriction (ac_sanction ac) from to1 amt with
+      | None => None
+      | Some to2 => quarantine_restriction (ac_quar ac) from to2 amt
+      end
+  end.
+Proof. exact app_restriction_unfold. Qed.
+Print Assumptions C04_app_restriction_is_marker_sanction_quarantine.
+
+(** A bank movement is permitted by the application, with destination [dest], exactly when the marker
+    rules permit it FOR THE ORIGINAL RECEIVER, the sender is not sanctioned (or the context carries the
+    sanction bypass, which no site of the application sets), and [dest] is the quarantine funds holder
+    when the receiver is quarantined (no quarantine bypass, sender is neither the receiver nor the
+    holder, no auto-accept for the sender), the receiver otherwise. *)
+Theorem C04_composition : forall ac from to amt dest,
+  app_restriction ac from to amt = Some dest <->
+  allowed (ac_marker ac) from to amt = true /\
+  (sc_bypass (ac_sanction ac) = true \/ is_sanctioned (ac_sanction ac) from = false) /\
+  dest = (if q_redirects (ac_quar ac) from to then qc_holder (ac_quar ac) else to).
+Proof. exact composition. Qed.
+Print Assumptions C04_composition.
+
+(** The marker verdict is independent of the other two restrictions: a marker denial is final
+    whatever the sanction and quarantine state and flags are ... *)
+Theorem C04_marker_denial_is_final : forall mc from to amt,
+  allowed mc from to amt = false ->
+  forall sc qc, app_restriction {| ac_marker := mc; ac_sanction := sc; ac_quar := qc |} from to amt = None.
+Proof. exact marker_denial_final. Qed.
+Print Assumptions C04_marker_denial_is_final.
+
+(** ... and the application's verdict factors into the marker verdict and the sanction test. *)
+Theorem C04_app_verdict_factors : forall mc sc qc from to amt,
+  match app_restriction {| ac_marker := mc; ac_sanction := sc; ac_quar := qc |} from to amt with
+  | Some _ => true | None => false end =
+  allowed mc from to amt && sanction_passes sc from.
+Proof. exact app_verdict_factor. Qed.
+Print Assumptions C04_app_verdict_factors.
+
+(** What the quarantine pay-out (AcceptQuarantinedFunds: SendCoins(quarantine.WithBypass(ctx), holder,
+    receiver, coins)) is subject to.  The holder is a required-attribute bypass address of the marker
+    keeper (wiring fact marker_req_attr_bypass_addrs.elems) and not a marker account; the context has
+    no marker flags.  Then the pay-out passes exactly when the receiver-marker check passes for the
+    holder and every coin passes [payout_denom_ok]: all of validateSendDenom with the holder as the
+    sender — marker active; if restricted: receiver is not the fee collector, the holder is not on the
+    deny list, and the holder has TRANSFER or else the receiver is not a marker account and holds the
+    required attributes (or is itself a bypass address) — EXCEPT that for a marker WITHOUT required
+    attributes the missing transfer permission of the sender is forgiven (the documented bypass). *)
+Theorem C04_quarantine_payout_exact : forall ac to amt,
+  let mc := ac_marker ac in
+  let holder := qc_holder (ac_quar ac) in
+  cfg_ctx_bypass mc = false -> holder <> cfg_marker_module mc -> holder <> cfg_ibc_module mc ->
+  cfg_agents mc = [] ->
+  get_marker_ign mc holder = None ->
+  is_req_attr_bypass mc holder = true ->
+  qc_bypass (ac_quar ac) = true ->
+  sc_bypass (ac_sanction ac) = true \/ is_sanctioned (ac_sanction ac) holder = false ->
+  app_restriction ac holder to amt =
+  if receiver_marker_block mc holder [] (get_marker_ign mc to) &&
+     forallb (fun p => payout_denom_ok mc holder to (fst p)) amt
+  then Some to else None.
+Proof. exact payout_exact. Qed.
+Print Assumptions C04_quarantine_payout_exact.
+
+(** The two simplified flowcharts of 12_transfers.md "Quarantine Complexities" are what the code does
+    under the assumptions the document states. *)
+Theorem C04_quarantined_send_as_documented : forall c S R d m,
+  marker_for_denom c d = Some m -> m_status m = SActive -> m_type m = MRestricted ->
+  R <> cfg_fee_collector c -> on_deny_list c d S = false ->
+  marker_at c R = None -> bypass_account c R = false -> bypass_account c S = false ->
+  validate_send_denom c S R (cfg_agents c) d (get_marker_ign c R) =
+  (some_agent_has m (cfg_agents c) AcTransfer || has_role m S AcTransfer) ||
+  match m_req_attrs m with [] => false | _ :: _ => has_required_attributes c m R end.
+Proof. exact quarantined_send_doc_simplified. Qed.
+Print Assumptions C04_quarantined_send_as_documented.
+
+Theorem C04_quarantine_payout_as_documented : forall c holder R d m,
+  get_marker_ign c (AMarker d) = Some m -> m_status m = SActive -> m_type m = MRestricted ->
+  R <> cfg_fee_collector c -> is_send_deny c (AMarker d) holder = false ->
+  has_access m holder AcTransfer = false ->
+  get_marker_ign c R = None -> is_req_attr_bypass c R = false ->
+  payout_denom_ok c holder R d =
+  match m_req_attrs m with [] => true | _ :: _ => has_required_attributes c m R end.
+Proof. exact payout_doc_simplified. Qed.
+Print Assumptions C04_quarantine_payout_as_documented.
+
+(** Restricted coins cannot be laundered through the quarantine holder: coins that reach R by way of a
+    quarantine (sent in state ac1, accepted in state ac2) were permitted by the marker rules for
+    (sender, R) when sent and for (holder, R) when accepted. *)
+Theorem C04_no_laundering_via_quarantine : forall ac1 ac2 S R amt dest,
+  app_restriction ac1 S R amt = Some (qc_holder (ac_quar ac1)) ->
+  app_restriction ac2 (qc_holder (ac_quar ac2)) R amt = Some dest ->
+  allowed (ac_marker ac1) S R amt = true /\
+  allowed (ac_marker ac2) (qc_holder (ac_quar ac2)) R amt = true.
+Proof. exact no_laundering. Qed.
+Print Assumptions C04_no_laundering_via_quarantine.
+
+(** What the pay-out does NOT re-check is who sent: a restricted coin without required attributes
+    leaves a bypass address for an ordinary account although the same send by an ordinary account
+    without TRANSFER is denied (documented: "it's assumed that they were originally sent by someone
+    with transfer authority").  Witness by computation. *)
+Theorem C04_payout_forgets_sender :
+  exists c holder S R amt,
+    coins_valid amt /\ is_req_attr_bypass c holder = true /\
+    allowed c S R amt = false /\ allowed c holder R amt = true.
+Proof. exact payout_forgets_sender. Qed.
+Print Assumptions C04_payout_forgets_sender.
+
+(** * Endpoints that reach the bank with marker context flags *)
+
+Import String.
+(** The flags the endpoint models set are reviewed setter sites (and nothing sets the sanction bypass). *)
+Theorem C04_endpoint_flags_are_reviewed_sites :
+  site_listed "markertypes.WithBypass"%string "x/marker/keeper"%string "Keeper.TransferCoin"%string = true /\
+  site_listed "markertypes.WithTransferAgents"%string "x/exchange/keeper"%string "Keeper.SettleOrders"%string = true /\
+  site_listed "quarantine.WithBypass"%string "x/exchange/keeper"%string "Keeper.DoTransfer"%string = true /\
+  site_listed "markertypes.WithTransferAgents"%string "x/metadata/keeper"%string "msgServer.UpdateValueOwners"%string = true /\
+  site_listed "quarantine.WithBypass"%string "x/quarantine/keeper"%string "Keeper.AcceptQuarantinedFunds"%string = true /\
+  site_listed "sanction.WithBypass"%string "x/sanction/keeper"%string "Keeper.SendRestrictionFn"%string = false.
+Proof. exact endpoint_flag_sites. Qed.
+Print Assumptions C04_endpoint_flags_are_reviewed_sites.
+
+(** An accepted MsgTransferRequest (which runs the bank send under the marker bypass): the marker
+    exists, is active and restricted, the administrator holds TRANSFER or FORCE_TRANSFER, a
+    restricted-marker receiver gave the administrator DEPOSIT, a foreign source consented through authz
+    unless this is a permitted forced transfer, the receiver is neither bank-blocked nor the fee
+    collector, the source is not sanctioned, and a quarantined receiver's coin goes to the holder. *)
+Theorem C04_transfer_request_accepts : forall ac admin from to d a authz_ok forcible blocked dest,
+  transfer_coin ac admin from to d a authz_ok forcible blocked = Some dest ->
+  exists m, get_marker (ac_marker ac) (AMarker d) = GMSome m /\
+    m_status m = SActive /\ m_type m = MRestricted /\
+    (has_access m admin AcTransfer = true \/ has_access m admin AcForceTransfer = true) /\
+    validate_send_to_marker (ac_marker ac) to admin = true /\
+    (admin = from \/ authz_ok = true \/
+     (m_forced m = true /\ has_access m admin AcForceTransfer = true /\ forcible = true)) /\
+    blocked = false /\ to <> cfg_fee_collector (ac_marker ac) /\
+    sanction_passes (ac_sanction ac) from = true /\
+    dest = q_dest (ac_quar ac) from to.
+Proof. exact transfer_coin_accepts. Qed.
+Print Assumptions C04_transfer_request_accepts.
+
+(** The scope of [C04_withdraw_needs_authority] made explicit: MsgTransferRequest by a holder of
+    FORCE_TRANSFER (marker allows forced transfers) moves the coin out of a marker account — here the
+    marker's own escrow — without WITHDRAW and without TRANSFER; the same movement as a bank send with
+    that account as transfer agent is refused.  Documented behaviour ("out of almost any account",
+    canForceTransferFrom lets marker accounts through); witness by computation. *)
+Theorem C04_forced_transfer_leaves_marker_without_withdraw :
+  exists ac admin m to d a,
+    get_marker (ac_marker ac) (AMarker d) = GMSome m /\
+    has_access m admin AcWithdraw = false /\ has_access m admin AcTransfer = false /\
+    transfer_coin ac admin (AMarker d) to d a false true false = Some to /\
+    app_restriction_seq (with_agents ac [admin]) (AMarker d) to [(d, a)] = None.
+Proof. exact forced_transfer_leaves_marker_without_withdraw. Qed.
+Print Assumptions C04_forced_transfer_leaves_marker_without_withdraw.
+
+(** An accepted exchange settlement: every transfer was permitted by the marker rules with the market
+    admin as the only transfer agent, from an unsanctioned sender to an unblocked receiver, and is
+    credited to the receiver itself (quarantine bypassed by DoTransfer). *)
+Theorem C04_settlement_accepts : forall ac admin legs,
+  settle_ok ac admin legs = true ->
+  forall f t amt blocked, In (f, t, amt, blocked) legs ->
+    blocked = false /\
+    allowed (mc_with (ac_marker ac) (cfg_ctx_bypass (ac_marker ac)) (cfg_fee_grant (ac_marker ac)) [admin]) f t amt = true /\
+    sanction_passes (ac_sanction ac) f = true /\
+    app_restriction_seq (settle_ctx ac admin) f t amt = Some t.
+Proof. exact settle_accepts. Qed.
+Print Assumptions C04_settlement_accepts.
+
+(** An accepted value-owner update: the owner signed or is a marker account; the scope coin moved
+    under the marker rules with the signers as transfer agents: out of a marker account only with a
+    signer holding WITHDRAW (or a fee grant in use), into a restricted marker only with DEPOSIT. *)
+Theorem C04_value_owner_update_accepts : forall ac signers owner to d blocked dest,
+  cfg_ctx_bypass (ac_marker ac) = false -> owner <> cfg_marker_module (ac_marker ac) ->
+  owner <> cfg_ibc_module (ac_marker ac) ->
+  update_value_owner ac signers owner to d blocked = Some dest ->
+  let c := mc_with (ac_marker ac) false (cfg_fee_grant (ac_marker ac)) signers in
+  (In owner signers \/ exists om, get_marker (ac_marker ac) owner = GMSome om) /\
+  blocked = false /\ owner <> to /\
+  allowed c owner to [(d, 1%Z)] = true /\
+  sanction_passes (ac_sanction ac) owner = true /\
+  dest = q_dest (ac_quar ac) owner to /\
+  (forall om, get_marker (ac_marker ac) owner = GMSome om ->
+     cfg_fee_grant (ac_marker ac) = true \/ exists a, In a signers /\ has_access om a AcWithdraw = true) /\
+  (forall tm, get_marker (ac_marker ac) to = GMSome tm -> m_type tm = MRestricted ->
+     (signers = [] /\ has_access tm owner AcDeposit = true) \/
+     exists a, In a signers /\ has_access tm a AcDeposit = true).
+Proof. exact update_value_owner_accepts. Qed.
+Print Assumptions C04_value_owner_update_accepts.
+
+(** The executable property checker of the correspondence (Corr/C04.v: documented rules = answer, the
+    "in particular" clauses, sanctioned senders, quarantined receivers not credited) holds on the model:
+    a "prop:" failure on the real code is a behaviour the model cannot show. *)
+Theorem C04_checker_holds_on_model : forall what ac from to amt,
+  coins_valid amt ->
+  PV.Corr.C04.check_answer what (ac_marker ac) from to amt (allowed (ac_marker ac) from to amt) = [] /\
+  (forall dest, app_restriction_seq ac from to amt = Some dest ->
+     PV.Corr.C04.moved_clauses what ac from to amt = [] /\
+     (from <> to ->
+      PV.Corr.C04.quarantine_clause ac from to amt
+        (PV.Corr.C04.expected_deltas from to (qc_holder (ac_quar ac)) dest amt) = true)) /\
+  (app_restriction_seq ac from to amt = None -> PV.Corr.C04.denied_clauses what ac from to amt = []).
+Proof. exact PV.Proofs.C04CheckerProofs.checker_holds_on_model. Qed.
+Print Assumptions C04_checker_holds_on_model.
+
 (** Required-attribute matching: "*.base" is satisfied exactly by names that end in ".base",
     i.e. base with one or more extra leading levels — never by base itself; anything else is
     an exact comparison; and this agrees with the level-wise rule of 01_state.md. *)
@@ -158,4 +407,34 @@ Example C04_witness :
 Proof.
   cbv zeta. repeat split; try (vm_compute; reflexivity).
   repeat constructor.
+Qed.
+
+(** Non-vacuity of the composition: the configuration above inside an application state with a
+    sanctioned account 15 (holding TRANSFER would not help it) and a quarantined receiver 20 that
+    auto-accepts sender 12; holder 6 is a bypass address. *)
+Definition ex_app (qbypass : bool) : app_config :=
+  {| ac_marker := ex_cfg false [];
+     ac_sanction := {| sc_sanctioned := [AAcct 15%positive]; sc_bypass := false |};
+     ac_quar := {| qc_optin := [AAcct 20%positive]; qc_auto_accept := [(AAcct 20%positive, AAcct 12%positive)];
+                   qc_holder := AAcct 6%positive; qc_bypass := qbypass |} |}.
+
+Example C04_composition_witness :
+  let one := [(1%positive, 5%Z)] in
+  (* attributes let 10 send to 20, but 20 is quarantined: the holder is credited *)
+  app_restriction (ex_app false) (AAcct 10%positive) (AAcct 20%positive) one = Some (AAcct 6%positive) /\
+  (* 12 is auto-accepted: straight to 20 *)
+  app_restriction (ex_app false) (AAcct 12%positive) (AAcct 20%positive) one = Some (AAcct 20%positive) /\
+  (* the marker judged the ORIGINAL receiver: 21 lacks the attribute, quarantined or not *)
+  app_restriction (ex_app false) (AAcct 10%positive) (AAcct 21%positive) one = None /\
+  (* a sanctioned sender is stopped although the marker rules would let it through *)
+  allowed (ex_cfg false []) (AAcct 15%positive) (AAcct 20%positive) one = true /\
+  app_restriction (ex_app false) (AAcct 15%positive) (AAcct 20%positive) one = None /\
+  (* the pay-out: holder -> 20 under the quarantine bypass passes (20 has the attribute), holder -> 21 does not *)
+  app_restriction (ex_app true) (AAcct 6%positive) (AAcct 20%positive) one = Some (AAcct 20%positive) /\
+  app_restriction (ex_app true) (AAcct 6%positive) (AAcct 21%positive) one = None /\
+  (* order independence is about real permutations *)
+  Permutation [(1%positive, 5%Z); (2%positive, 7%Z)] [(2%positive, 7%Z); (1%positive, 5%Z)].
+Proof.
+  cbv zeta. repeat split; try (vm_compute; reflexivity).
+  apply perm_swap.
 Qed.
